@@ -210,7 +210,7 @@ def run_real(sc, scratch, call_timeout=40.0):
     evs = []
     defaults = {'t': 0, 'f': 0, 'v': [], 'kids': [], 'w': 0, 'c': 0, 'call': '', 'cid': 0, 'kind': '', 's': '', 'cause': '',
                 'boom': [], 'text': '', 'node': '', 'total': 0, 'idle': 0, 'emps': [], 'blocked': [], 'alive': [],
-                'residue': [], 'srv': [0, 0, 0], 'final': False, 'settled': False, 'ok': False}
+                'residue': [], 'srv': [0, 0, 0], 'final': False, 'settled': False, 'ok': False, 'how': ''}
     with open(os.path.join(tdir, 'events.ndjson')) as f:
         for line in f:
             d = dict(defaults)
